@@ -138,21 +138,24 @@ EmitMetadata ==
 Ready == Configured /\ (cfg.meta => metaDone)
 
 Keep == Ready /\ UNCHANGED <<cfg, ident, metaDone>>
+\* the write programs considered here do not reuse object numbers (the error
+\* paths of the Writer are the subject of file/PdfWriter.tla, property C02)
+Fresh(n) == xref[n] = NONE /\ \A i \in 1..Len(deferred) : deferred[i][1] # n
 \* OpenStream(ref, dict, FilterCryptIdentity{}, ...): the document level
 \* encryption wrap is skipped for the data, not for the dictionary's strings
 OpenStreamIdentity(n, g, v) ==
-  /\ Ready /\ OBJSTM /\ xref[n] = NONE     \* crypt filters need PDF 1.5
+  /\ Ready /\ OBJSTM /\ Fresh(n)     \* crypt filters need PDF 1.5
   /\ OpenStream(n, g, v, "none")
   /\ ident' = ident \cup {<<n, g>>}
   /\ UNCHANGED <<cfg, metaDone>>
 
 CAlloc == Keep /\ Alloc
-CPut(n, g, v) == Keep /\ Put(n, g, v)
-COpenStream(n, g, v, lg) == Keep /\ OpenStream(n, g, v, lg)
+CPut(n, g, v) == Keep /\ Fresh(n) /\ Put(n, g, v)
+COpenStream(n, g, v, lg) == Keep /\ Fresh(n) /\ OpenStream(n, g, v, lg)
 CStreamWrite(k) == Keep /\ StreamWrite(k)
 CCloseStream == Keep /\ CloseStream
-CWC2(a, b, v) == Keep /\ WC2(a, b, v)
-CWC1(a, v) == Keep /\ WC1(a, v)
+CWC2(a, b, v) == Keep /\ Fresh(a) /\ Fresh(b) /\ a # nextRef /\ b # nextRef /\ WC2(a, b, v)
+CWC1(a, v) == Keep /\ Fresh(a) /\ a # nextRef /\ WC1(a, v)
 CClose == Keep /\ Close
 
 CNext == \/ \E c \in CIPHERS, e \in BOOLEAN, m \in BOOLEAN : Configure(c, e, m)
@@ -178,6 +181,11 @@ KeyScopeOK == Ok(KeyScope(cfg, ImplItems))
 IVUniqueOK == Ok(IVUnique(ImplItems))
 DistinctCipherOK == Ok(DistinctCipher(ImplItems))
 MembersContainedOK == Ok(MembersContained(ImplItems))
+\* all of them with the items computed once (what the MC configurations check)
+AllOK == Ok(LET I == ImplItems
+            IN /\ NoLeak(cfg, I) /\ ExemptPlain(cfg, I) /\ KeyScope(cfg, I) /\ IVUnique(I)
+               /\ DistinctCipher(I) /\ MembersContained(I)
+               /\ \A w \in written : w[3] \in Vals => \E it \in I : it.obj = <<w[1], w[2]>> /\ it.plain[2] = w[3])
 \* every written value has its items (nothing is silently left out)
 Covered == Ok(\A w \in written : w[3] \in Vals =>
                  \E it \in ImplItems : it.obj = <<w[1], w[2]>> /\ it.plain[2] = w[3])
